@@ -56,6 +56,46 @@ func generate() {
 		starts = append(starts, -1, minI)
 	}
 	seed := uint64(1)
+	// ---- whole-record writes (ptt.SetUserPerm -> passwdSyncUpdate), smallest first --------------------
+	// (a) no load: the caller's record is a zero record carrying a Money that is not the balance
+	for _, u := range slots {
+		for _, staleMoney := range []int64{0, 7, -1, maxI} {
+			shm := baseBalances()
+			seed++
+			do(resetLine(nSlot, 0, seed, shm, nil))
+			do(fmt.Sprintf("permupdate %d %d %d", u, staleMoney, 1+seed%7))
+			do(fmt.Sprintf("get %d", u))
+		}
+	}
+	// (b) load, change the balance, write the loaded record back
+	for _, u := range slots {
+		for _, mid := range []string{"de %d 5", "de %d -30", "de %d -100000", "set %d 0", "set %d 2147483647"} {
+			shm := baseBalances()
+			seed++
+			do(resetLine(nSlot, 0, seed, shm, nil))
+			do(fmt.Sprintf("load %d", u))
+			do(fmt.Sprintf(mid, u))
+			stale := int64(0)
+			if inArr(u) {
+				stale = shm[u-1]
+			}
+			do(fmt.Sprintf("permupdate %d %d %d", u, stale, 4294967295-seed%3))
+			do(fmt.Sprintf("syncquery %d", u))
+			do(fmt.Sprintf("get %d", u))
+		}
+	}
+	// (c) a start where .PASSWDS disagrees with the cache: the whole-record write brings the slot into step
+	for _, u := range []int64{1, MAX} {
+		shm := baseBalances()
+		disk := baseBalances()
+		disk[u-1] = shm[u-1] + 9
+		seed++
+		do(resetLine(nSlot, 0, seed, shm, disk))
+		do(fmt.Sprintf("syncquery %d", u))
+		do(fmt.Sprintf("permupdate %d %d 3", u, disk[u-1]))
+		do(fmt.Sprintf("get %d", u))
+	}
+
 	// ---- single-op shapes, smallest first --------------------------------------------
 	for _, b := range starts {
 		for _, kind := range []string{"set", "de"} {
@@ -127,7 +167,22 @@ func generate() {
 			if inArr(u) {
 				cur = P.bal[u]
 			}
-			switch r.Intn(10) {
+			switch r.Intn(13) {
+			case 10:
+				if r.Bool() {
+					do(fmt.Sprintf("load %d", u))
+				} else {
+					do(fmt.Sprintf("syncquery %d", u))
+				}
+			case 11, 12:
+				sm := cur
+				switch r.Intn(4) {
+				case 0:
+					sm = int64(r.Intn(100000))
+				case 1:
+					sm = []int64{0, -1, maxI, minI}[r.Intn(4)]
+				}
+				do(fmt.Sprintf("permupdate %d %d %d", u, sm, r.U64()&0xffffffff))
 			case 0, 1:
 				do(fmt.Sprintf("get %d", u))
 			case 2, 3:
@@ -188,6 +243,9 @@ func generate() {
 			do(fmt.Sprintf("de %d -5", u))
 			do(fmt.Sprintf("de %d -50", u))
 			do(fmt.Sprintf("get %d", u))
+			do(fmt.Sprintf("load %d", u))
+			do(fmt.Sprintf("permupdate %d 77 5", u))
+			do(fmt.Sprintf("syncquery %d", u))
 		}
 	}
 	do(fmt.Sprintf("reset nofile 0 0 %s -", csv(base)))
@@ -212,6 +270,8 @@ func generate() {
 		"set", "set 1", "set 1 2 3", "de 1", "get", "get 1 2", "frob 1 2", "SET 1 2",
 		"set a 1", "set 1 b", "set 1 2147483648", "set 1 -2147483649", "de 2147483648 1", "get 99999999999",
 		"set +1 1", "set 1 1_0", "set 0x1 1", "set 1 -", "set - 1", "de 1 --1", "set 1 1.0", "set ١ 1",
+		"load", "load 1 2", "syncquery a", "syncquery", "permupdate 1 2", "permupdate 1 2 4294967296", "permupdate 1 2 -1",
+		"permupdate 1 x 1", "permupdate 1 2 3 4", "permupdate 1 2 12345678901",
 		"layout now", "reset", "reset 50 0 1 1,2,3 1,2,3", "reset 50 0 x " + csv(base) + " " + csv(base),
 		"reset 49 0 1 " + csv(base) + " " + csv(base), "reset 50 512 1 " + csv(base) + " " + csv(base),
 		"reset nofile 0 0 " + csv(base) + " 1", "reset 101 0 1 " + csv(base) + " -",
@@ -220,6 +280,8 @@ func generate() {
 		do(l)
 	}
 	do("set 1 42")
+	do("load 1")
 	do("de 50 -3")
+	do("permupdate 1 0 9")
 	do("get 1")
 }
